@@ -172,4 +172,183 @@ theorem pySlice_nonneg {α} (l : List α) (i j : Int) (hi : 0 ≤ i) (hj : 0 ≤
   rw [if_neg (by omega), if_neg (by omega)]
   exact take_drop_min l _ _
 
+
+/-! ## Time strings: the strings people write -/
+
+/-- one group of a time string in the form people write: optional white space, a whole number, a unit -/
+structure Grp where
+  pre : List Char
+  digits : List Char
+  unit : Nat
+
+def unitChars (i : Nat) : List Char := ((units[i]?).map (·.1.toList)).getD []
+def unitRatio (i : Nat) : Nat := ((units[i]?).map (·.2)).getD 0
+
+def Grp.str (g : Grp) : List Char := g.pre ++ g.digits ++ unitChars g.unit
+def Grp.WF (g : Grp) : Prop := g.pre.all isSpace = true ∧ g.digits ≠ [] ∧ g.digits.all isDigit = true ∧ g.unit < 7
+def Grp.tok (g : Grp) : Tok := ⟨⟨digitsToNat g.digits, 0⟩, g.unit⟩
+
+theorem takeWhile_append_stop {p : Char → Bool} (l r : List Char) (hl : l.all p = true)
+    (hr : ∀ c r', r = c :: r' → p c = false) : (l ++ r).takeWhile p = l ∧ (l ++ r).dropWhile p = r := by
+  induction l with
+  | nil =>
+    cases r with
+    | nil => simp
+    | cons c r' => simp [List.takeWhile_cons, List.dropWhile_cons, hr c r' rfl]
+  | cons x xs ih =>
+    simp only [List.all_cons, Bool.and_eq_true] at hl
+    simp [List.takeWhile_cons, List.dropWhile_cons, hl.1, ih hl.2]
+
+theorem digit_not_space (c : Char) (h : isDigit c = true) : isSpace c = false := by
+  unfold isDigit at h; unfold isSpace
+  simp only [Bool.and_eq_true, decide_eq_true_eq] at h
+  have h1 : '0'.toNat ≤ c.toNat := h.1
+  have h2 : c.toNat ≤ '9'.toNat := h.2
+  have : ∀ d : Char, d.toNat < 48 → c ≠ d := fun d hd he => by subst he; simp at h1; omega
+  simp [this]
+
+theorem digit_not_unitChar (c : Char) (h : isDigit c = true) : isUnitChar c = false := by
+  unfold isUnitChar; simp [h]
+
+
+
+
+theorem unit_facts (i : Nat) (h : i < 7) :
+    unitChars i ≠ [] ∧ (unitChars i).all isUnitChar = true ∧
+    (unitChars i).head?.all (fun c => !isDigit c && !isSpace c && c != '.') = true ∧
+    unitIndex? (String.ofList (unitChars i)) = some i := by
+  match i, h with
+  | 0, _ | 1, _ | 2, _ | 3, _ | 4, _ | 5, _ | 6, _ => decide
+
+theorem unit_head (i : Nat) (h : i < 7) (c : Char) (r : List Char) (hc : unitChars i = c :: r) :
+    isDigit c = false ∧ isSpace c = false ∧ c ≠ '.' := by
+  have := (unit_facts i h).2.2.1
+  rw [hc] at this
+  simp at this
+  exact ⟨this.1.1, this.1.2, this.2⟩
+
+
+def strs (gs : List Grp) : List Char := gs.flatMap Grp.str
+
+/-- what may follow a group: nothing, or the next group (which starts with white space or a digit) -/
+theorem strs_head (gs : List Grp) (hwf : ∀ g ∈ gs, g.WF) (c : Char) (r : List Char) (h : strs gs = c :: r) :
+    isSpace c = true ∨ isDigit c = true := by
+  cases gs with
+  | nil => simp [strs] at h
+  | cons g gs =>
+    have hg := hwf g (by simp)
+    unfold strs at h
+    simp only [List.flatMap_cons, Grp.str, List.append_assoc] at h
+    cases hp : g.pre with
+    | cons x xs =>
+      rw [hp] at h; simp only [List.cons_append, List.cons.injEq] at h
+      have := hg.1; rw [hp] at this; simp only [List.all_cons, Bool.and_eq_true] at this
+      left; rw [← h.1]; exact this.1
+    | nil =>
+      rw [hp] at h; simp only [List.nil_append] at h
+      cases hd : g.digits with
+      | nil => exact absurd hd hg.2.1
+      | cons x xs =>
+        rw [hd] at h; simp only [List.cons_append, List.cons.injEq] at h
+        have := hg.2.2.1; rw [hd] at this; simp only [List.all_cons, Bool.and_eq_true] at this
+        right; rw [← h.1]; exact this.1
+
+theorem space_not_unitChar (c : Char) (h : isSpace c = true) : isUnitChar c = false := by
+  unfold isUnitChar; simp [h]
+
+theorem lexToks_strs (gs : List Grp) (hwf : ∀ g ∈ gs, g.WF) (fuel : Nat) (hf : gs.length < fuel) :
+    lexToks fuel (strs gs) = some (gs.map Grp.tok, false) := by
+  induction gs generalizing fuel with
+  | nil =>
+    cases fuel with
+    | zero => omega
+    | succ f => simp [strs, lexToks]
+  | cons g gs ih =>
+    cases fuel with
+    | zero => omega
+    | succ f =>
+      have hg := hwf g (by simp)
+      have hwf' : ∀ g ∈ gs, g.WF := fun x hx => hwf x (by simp [hx])
+      obtain ⟨hpre, hne, hdig, hu⟩ := hg
+      obtain ⟨d0, ds, hd⟩ : ∃ d0 ds, g.digits = d0 :: ds := by
+        cases h : g.digits with
+        | nil => exact absurd h hne
+        | cons a b => exact ⟨a, b, rfl⟩
+      have hd0 : isDigit d0 = true := by
+        have := hdig; rw [hd] at this; simp only [List.all_cons, Bool.and_eq_true] at this; exact this.1
+      obtain ⟨u0, us, hu0⟩ : ∃ u0 us, unitChars g.unit = u0 :: us := by
+        cases h : unitChars g.unit with
+        | nil => exact absurd h (unit_facts g.unit hu).1
+        | cons a b => exact ⟨a, b, rfl⟩
+      obtain ⟨hu0d, hu0s, hu0p⟩ := unit_head g.unit hu u0 us hu0
+      have hcs : strs (g :: gs) = g.pre ++ (g.digits ++ (unitChars g.unit ++ strs gs)) := by
+        simp [strs, Grp.str, List.append_assoc]
+      -- skip the white space
+      have h1 := takeWhile_append_stop (p := isSpace) g.pre (g.digits ++ (unitChars g.unit ++ strs gs)) hpre
+        (by intro c r' hc; rw [hd] at hc; simp only [List.cons_append, List.cons.injEq] at hc
+            rw [← hc.1]; exact digit_not_space d0 hd0)
+      -- the number
+      have h2 := takeWhile_append_stop (p := isDigit) g.digits (unitChars g.unit ++ strs gs) hdig
+        (by intro c r' hc; rw [hu0] at hc; simp only [List.cons_append, List.cons.injEq] at hc
+            rw [← hc.1]; exact hu0d)
+      -- the unit
+      have h3 := takeWhile_append_stop (p := isUnitChar) (unitChars g.unit) (strs gs) (unit_facts g.unit hu).2.1
+        (by intro c r' hc
+            rcases strs_head gs hwf' c r' hc with h | h
+            · exact space_not_unitChar c h
+            · exact digit_not_unitChar c h)
+      have hrest_ne : (g.digits ++ (unitChars g.unit ++ strs gs)).isEmpty = false := by rw [hd]; rfl
+      have hnum : lexNumber (g.digits ++ (unitChars g.unit ++ strs gs)) =
+          some (⟨digitsToNat g.digits, 0⟩, unitChars g.unit ++ strs gs) := by
+        unfold lexNumber
+        simp only [h2.1, h2.2]
+        rw [hu0]
+        simp only [List.cons_append]
+        have : g.digits.isEmpty = false := by rw [hd]; rfl
+        split
+        · rename_i r2 heq
+          simp only [List.cons.injEq] at heq
+          exact absurd heq.1 hu0p
+        · simp [this]
+      have hsp : (unitChars g.unit ++ strs gs).dropWhile isSpace = unitChars g.unit ++ strs gs := by
+        rw [hu0]; simp [List.dropWhile_cons, hu0s]
+      rw [hcs]
+      unfold lexToks
+      simp only [h1.2, hrest_ne, Bool.false_eq_true, ↓reduceIte, hnum, hsp, h3.1, h3.2, (unit_facts g.unit hu).2.2.2]
+      rw [ih hwf' f (by simp at hf; omega)]
+      simp [Grp.tok]
+
+
+theorem length_le_strs (gs : List Grp) (hwf : ∀ g ∈ gs, g.WF) : gs.length ≤ (strs gs).length := by
+  induction gs with
+  | nil => simp
+  | cons g gs ih =>
+    have hg := hwf g (by simp)
+    have : 1 ≤ g.digits.length := by
+      cases h : g.digits with
+      | nil => exact absurd h hg.2.1
+      | cons a b => simp
+    have := ih (fun x hx => hwf x (by simp [hx]))
+    simp only [strs, List.flatMap_cons, Grp.str, List.length_append, List.length_cons] at *
+    omega
+
+/-- nanoseconds a group stands for -/
+def Grp.ns (g : Grp) : Nat := digitsToNat g.digits * unitRatio g.unit
+
+theorem tokNs_tok (g : Grp) : tokNs g.tok = g.ns := by
+  simp [tokNs, Grp.tok, Grp.ns, unitRatio]
+
+theorem head_not_minus (gs : List Grp) (hwf : ∀ g ∈ gs, g.WF) : splitSign (strs gs) = (false, strs gs) := by
+  cases h : strs gs with
+  | nil => rfl
+  | cons c r =>
+    have hc := strs_head gs hwf c r h
+    have : c ≠ '-' := by
+      intro he; subst he
+      rcases hc with hc | hc <;> revert hc <;> decide
+    unfold splitSign
+    split
+    · rename_i r' heq; simp only [List.cons.injEq] at heq; exact absurd heq.1 this
+    · rfl
+
 end Verif.C01
